@@ -791,6 +791,11 @@ def _m_copy(ex, st, recv, pos, named, node): return [(st, recv)]
 
 
 @method(PMap, 'items')
+def _m_items(ex, st, recv, pos, named, node):
+    if recv.kkind.tag == 'str' and recv.vkind.tag == 'val': return [(st, PItems(PDict(recv.arr)))]      # same shape as a str-keyed dict
+    return [(st, recv)]
+
+
 @method(PMap, 'keys')
 @method(PMap, 'values')
 def _m_view(ex, st, recv, pos, named, node): return [(st, recv)]
@@ -924,6 +929,16 @@ def _removeprefix(ex, st, recv, pos, named, node):
 @_mutating
 def _seq_append(ex, st, recv, pos, named, node):
     return [(st, PSeq(Store(recv.arr, recv.n, to_val(pos[0], st)), recv.n + 1, recv.elem, recv.is_list), P_NONE)]
+
+
+@method(PSeq, 'extend')
+@_mutating
+def _seq_extend(ex, st, recv, pos, named, node):
+    """list.extend(<sequence>): concatenation"""
+    arr2, n2 = seq_of(pos[0], st)
+    j = fresh('j', IntSort())
+    new = z3.Lambda([j], If(j < recv.n, asel(recv.arr, j), asel(arr2, j - recv.n)))
+    return [(st, PSeq(new, recv.n + n2, recv.elem, recv.is_list), P_NONE)]
 
 
 @method(PTuple, 'append')
